@@ -18,6 +18,8 @@ Every connection is an actor that walks through the critical sections of the cod
   hijack              `go hijackConnHandler` · handler returns · `c.Close()` (KeepHijackedConns off) /
                       the application closes the kept connection (idempotent: `perIPConn.Close` nils its Conn)
 
+Every `c.Close()` event carries the outcome of the transport's own `Close` (error or not).
+
 The add-then-test shape of `tryAcquireConcurrency` and of `Register` is kept: between the add and the test the
 gauge / the per-IP count may exceed the limit (a reachable state of the model).
 
@@ -142,10 +144,17 @@ def State.init (cfg : Cfg) : State := ⟨cfg, 0, 0, 0, fun _ => 0, [], []⟩
 inductive Act
   | register | ipDecide | skipWrap
   | acqAdd | acqDecide
-  | openInc | getCh | openDec | rejectClose
+  | openInc | getCh | openDec
+  /-- 503 written, `c.Close()`; `err` = the transport's `Close` reported an error -/
+  | rejectClose (err : Bool)
   | concInc | startServing | hijackStart
-  | cleanupOpen | cleanupConc | closeConn | workerRelease | releaseConc
-  | hijackReturn | hijackClose | userClose
+  | cleanupOpen | cleanupConc
+  /-- `c.Close()` after the request loop; `err` = the transport's `Close` reported an error -/
+  | closeConn (err : Bool)
+  | workerRelease | releaseConc
+  | hijackReturn
+  | hijackClose (err : Bool)
+  | userClose (err : Bool)
   deriving DecidableEq, Repr
 
 inductive Ev
@@ -179,9 +188,15 @@ def inLoop : Phase → Bool
 def loopIdle (s : State) (p : Nat) : Bool :=
   s.conns.all fun c => !(c.path == .serve p && inLoop c.phase)
 
-/-- `c.Close()` on the (possibly wrapped) connection: `perIPConn.Close` unregisters once (shared-state part) -/
-def closeS (s : State) (c : Conn) : State :=
-  if c.reg then { s with perIP := ipDec s.perIP c.ip } else s
+/-- `c.Close()` on the (possibly wrapped) connection: `perIPConn.Close` unregisters once (shared-state part).
+    `err` says whether the transport's own `Close` reported an error (a TLS close_notify hitting a dead peer, …):
+    `perIPConn.Close` / `perIPTLSConn.Close` run `err := cc.Close(); Unregister(ip); pool.Put(c); return err`, so the
+    outcome is only passed on — the registration is released either way (the regenerated facts
+    `Gen.perIPConn_Close_*` pin that shape). -/
+def closeS (s : State) (c : Conn) (err : Bool) : State :=
+  match err with
+  | true => if c.reg then { s with perIP := ipDec s.perIP c.ip } else s
+  | false => if c.reg then { s with perIP := ipDec s.perIP c.ip } else s
 
 /-- `c.Close()`: the connection's part (`perIPConn.Close` nils its `Conn`, so a second Close does nothing) -/
 def closeC (c : Conn) : Conn := { c with reg := false, closed := true }
@@ -240,8 +255,8 @@ def act (s : State) (c : Conn) : Act → Option (State × Conn)
     match c.path, c.phase with
     | .serve _, .noWorker => some ({ s with opn := s.opn - 1 }, { c with phase := .rejecting })
     | _, _ => none
-  | .rejectClose =>
-    if c.phase = .rejecting then some (closeS s c, { closeC c with phase := .done .r503 }) else none
+  | .rejectClose err =>
+    if c.phase = .rejecting then some (closeS s c err, { closeC c with phase := .done .r503 }) else none
   | .concInc =>
     match c.path, c.phase with
     | .serve _, .queued => some ({ s with conc := s.conc + 1 }, { c with phase := .serving, served := true })
@@ -261,9 +276,9 @@ def act (s : State) (c : Conn) : Act → Option (State × Conn)
     match c.path, c.phase with
     | .serve _, .exitConc => some ({ s with conc := s.conc - 1 }, { c with phase := .closing })
     | _, _ => none
-  | .closeConn =>
+  | .closeConn err =>
     if c.phase = .closing then
-      if c.hj = .none then some (closeS s c, { closeC c with phase := .releasing })
+      if c.hj = .none then some (closeS s c err, { closeC c with phase := .releasing })
       else some (s, { c with phase := .releasing })
     else none
   | .workerRelease =>
@@ -283,10 +298,10 @@ def act (s : State) (c : Conn) : Act → Option (State × Conn)
     | _, _ => none
   | .hijackReturn =>
     if c.hj = .running then some (s, { c with hj := .returned }) else none
-  | .hijackClose =>
-    if c.hj = .returned ∧ s.cfg.keep = false then some (closeS s c, { closeC c with hj := .finished }) else none
-  | .userClose =>
-    if s.cfg.keep = true ∧ (c.hj = .running ∨ c.hj = .returned) then some (closeS s c, closeC c) else none
+  | .hijackClose err =>
+    if c.hj = .returned ∧ s.cfg.keep = false then some (closeS s c err, { closeC c with hj := .finished }) else none
+  | .userClose err =>
+    if s.cfg.keep = true ∧ (c.hj = .running ∨ c.hj = .returned) then some (closeS s c err, closeC c) else none
 
 /-- one atomic step; `none` = the event is not enabled in this state -/
 def step (s : State) : Ev → Option State
